@@ -16,9 +16,18 @@ import (
 
 const (
 	verifDir = "/verif"
-	repoDir  = "/repo"
 	cacheDir = "/verif/.cache"
 )
+
+// repoDir is /repo; VERIF_REPO points the checks at another checkout (used
+// only for trying seeded changes in scratch worktrees without touching /repo;
+// the registered commands never set it).
+var repoDir = func() string {
+	if d := os.Getenv("VERIF_REPO"); d != "" {
+		return d
+	}
+	return "/repo"
+}()
 
 type artefacts struct {
 	Dir    string
